@@ -19,7 +19,8 @@ var (
 	svcNames   = []string{"web", "web-1", "api", "db", "we"}
 	keyNames   = []string{"a", "a/", "a/b", "ab", "k"}
 	queryNames = []string{"q1", "q2", "qq"}
-	goodNames  = []string{"ok1", "ok2"}
+	goodNames  = []string{"ok1", "ok2", "ok3", "ok4", "ok5", "ok6"}
+	badNames   = []string{"bad", "bad1", "bad2", "bad3", "bad4", "bad5"}
 	badName    = "bad"
 	peerNames  = []string{"", "peer1"}
 	allNames   []string
@@ -27,7 +28,7 @@ var (
 
 func init() {
 	seen := map[string]bool{}
-	for _, l := range [][]string{nodeNames, svcNames, keyNames, queryNames, goodNames, {badName, "", "*", "i-1", "i-2"}} {
+	for _, l := range [][]string{nodeNames, svcNames, keyNames, queryNames, goodNames, badNames, { "", "*", "i-1", "i-2"}} {
 		for _, n := range l {
 			if !seen[n] {
 				seen[n] = true
@@ -89,25 +90,25 @@ func mkAuthorizer(policy, deflt string) acl.Authorizer {
 // fixed policies of the exhaustive-arrangement mode: everything readable except the name "bad"
 const policyA = `
 node_prefix "" { policy = "read" }
-node "bad" { policy = "deny" }
+node_prefix "bad" { policy = "deny" }
 service_prefix "" { policy = "read" intentions = "read" }
-service "bad" { policy = "deny" intentions = "deny" }
+service_prefix "bad" { policy = "deny" intentions = "deny" }
 session_prefix "" { policy = "read" }
-session "bad" { policy = "deny" }
+session_prefix "bad" { policy = "deny" }
 key_prefix "" { policy = "read" }
-key "bad" { policy = "deny" }
+key_prefix "bad" { policy = "deny" }
 query_prefix "" { policy = "read" }
-query "bad" { policy = "deny" }
+query_prefix "bad" { policy = "deny" }
 acl = "read"
 `
 
 // default allow, "bad" denied, ACL read but not write
 const policyB = `
-node "bad" { policy = "deny" }
-service "bad" { policy = "deny" intentions = "deny" }
-session "bad" { policy = "deny" }
-key "bad" { policy = "deny" }
-query "bad" { policy = "deny" }
+node_prefix "bad" { policy = "deny" }
+service_prefix "bad" { policy = "deny" intentions = "deny" }
+session_prefix "bad" { policy = "deny" }
+key_prefix "bad" { policy = "deny" }
+query_prefix "bad" { policy = "deny" }
 acl = "read"
 `
 
@@ -200,7 +201,25 @@ func (g *G) name(w *bool, universe []string) string {
 	if *w {
 		return g.pick(goodNames)
 	}
-	return badName
+	return g.pick(badNames)
+}
+
+// distinct: a name of the same kind (readable / unreadable / any) that is not used yet
+func (g *G) distinct(w *bool, universe []string, used map[string]bool) string {
+	for tries := 0; tries < 200; tries++ {
+		n := g.name(w, universe)
+		if !used[n] {
+			used[n] = true
+			return n
+		}
+	}
+	for _, n := range allNames {
+		if !used[n] {
+			used[n] = true
+			return n
+		}
+	}
+	panic("name universe exhausted")
 }
 
 // split a wanted readability over two ACL dimensions (node and service)
@@ -319,7 +338,12 @@ func genFilterCases(rng *rand.Rand, tier string, emit func(*Case)) {
 				masks = 1
 			}
 			for mask := 0; mask < masks; mask++ {
-				for pi, pol := range []struct{ p, d string }{{policyA, "deny"}, {policyB, "allow"}} {
+				pols := []struct{ p, d string }{{policyA, "deny"}, {policyB, "allow"}}
+				if rt.noArrangement { // all-or-nothing types: vary acl read / write instead of the arrangement
+					pols = append(pols, struct{ p, d string }{"acl = \"write\"\nquery_prefix \"\" { policy = \"read\" }\n", "deny"},
+						struct{ p, d string }{"query_prefix \"\" { policy = \"read\" }\n", "deny"})
+				}
+				for pi, pol := range pols {
 					if pi == 1 && tier != "thorough" && n > 3 && !rt.noArrangement {
 						continue
 					}
@@ -337,17 +361,23 @@ func genFilterCases(rng *rand.Rand, tier string, emit func(*Case)) {
 				}
 			}
 		}
-		// random policies, names, peers, initial flags; 0..6 elements
-		for k := 0; k < randPer; k++ {
-			p, d := randomPolicy(rng)
+	}
+	// random policies, names, peers, initial flags; 0..6 elements; and the malformed stream
+	// (nil members, empty names).  Grouped by policy so that a case shard needs few tables.
+	for k := 0; k < randPer; k++ {
+		p, d := randomPolicy(rng)
+		for i := range respTypes {
+			rt := &respTypes[i]
+			reps := 1
+			if rt.mapOrder {
+				reps = 3
+			}
 			for r := 0; r < reps; r++ {
 				emit(runFilterCase(rt, "rand", rng.Intn(7), 0, rng.Int63(), p, d))
 			}
-		}
-		// malformed stream: nil members, empty names
-		for k := 0; k < randPer/3; k++ {
-			p, d := randomPolicy(rng)
-			emit(runFilterCase(rt, "malformed", rng.Intn(7), 0, rng.Int63(), p, d))
+			if k%3 == 0 {
+				emit(runFilterCase(rt, "malformed", rng.Intn(7), 0, rng.Int63(), p, d))
+			}
 		}
 	}
 }
